@@ -1,7 +1,7 @@
 (* C01 — Selected nodes are exactly the RFC 9535 nodelist.  Statements only. *)
 From Coq Require Import List NArith ZArith Bool Permutation.
 From JP Require Import Base Ast Eval ValueModel Spec Known WellFormed Regex Entry DataFacts SelFacts
-  Refine Order SpecFacts RegexFacts Build FragParse FragBuild Purity StringLevel.
+  Refine Order SpecFacts RegexFacts Build FragParse FragBuild Purity GenParse GenBuild FilterParse FilterBuild StringLevel.
 Import ListNotations.
 
 (* Theorem A: the model returns exactly the nodelist of the semantics with the switch sel_major
@@ -67,6 +67,20 @@ Theorem C01_string_level_filter_free : forall (q : list fseg) (d : json),
     /\ Forall (fun p => lookup d (ploc p) = Some (inner p)) ps.
 Proof. exact frag_end_to_end. Qed.
 Print Assumptions C01_string_level_filter_free.
+
+(* ... and for queries WITH FILTERS nested to any depth n (the tower of FilterParse.v: existence tests,
+   comparisons between singular queries and literals, !, parentheses, &&, ||): the text of the query goes
+   through the generated grammar, parser.rs, Filter::process and the comparison code, and what comes back is
+   exactly the RFC 9535 nodelist with multiplicity, each node the one at its location in the caller's document *)
+Theorem C01_string_level_with_filters : forall n (q : list (gseg (SelT n))) (d : json),
+  Forall (gseg_ok (SelT n) (sokT n)) q -> Forall (gseg_good (SelT n) (sgoodT n)) q -> wf_json d = true ->
+  let ast := segments_of_list (map (gseg_ast (SelT n) (sastT n)) q) in
+  exists ps,
+    api_with_path (36%N :: gsegs_text (SelT n) (stextT n) q) d = Some (map (fun p => (inner p, path p)) ps)
+    /\ Permutation (map node_of ps) (rfc_query ast d)
+    /\ Forall (fun p => lookup d (ploc p) = Some (inner p)) ps.
+Proof. exact filter_end_to_end. Qed.
+Print Assumptions C01_string_level_with_filters.
 
 (* non-vacuity: a bookstore-like document, $..book[?@.price<10].title *)
 Definition ex_doc : json :=
